@@ -17,6 +17,7 @@ ISA_ASSUMPTIONS = [
 ]
 
 WORDS_ALL = (2, 3, 4)
+ODD_WORDS = (6, 5, 7, 12, 16)      # -m 48, 40, 56, 96, 128: word sizes that are not a power of two bytes (strides that a shift cannot produce)
 
 
 def shard_seeds(seed, n):
